@@ -1,7 +1,47 @@
 """C19 - results do not depend on word size, build features or serialization medium."""
 import os
+import sys
 import core
 from core import hx, gen_mag, gen_words_len
+
+# The architecture selection (integer/src/arch/mod.rs cfg_if! chain, <dir>/mod.rs, word.rs, generic/add.rs) is regenerated
+# into coq/gen/ArchGen.v when this plug-in is imported, i.e. before the proof phase of every run (tools/check.py has no hook
+# between plug-in load and the Coq build; tools/translate.py is shared and not ours to edit).  C19_arch_* are proved over the
+# regenerated definitions.  Unparseable source is not an alarm: the committed copy stays (marked STALE), the status is
+# reported in the evidence by extra_phase, and the `config` case of the correspondence run alone ties the word size.
+sys.path.insert(0, os.path.join(core.ROOT, "tools"))
+try:
+    import translate_c19_r3
+    ARCH_GEN_STATUS = translate_c19_r3.generate(core.REPO, os.path.join(core.COQ, "gen"))
+except Exception as _ex:  # the generator itself broke: same fallback as an unparseable source
+    ARCH_GEN_STATUS = "unparsed generator-failed: %s" % str(_ex)[:200]
+
+# a run against a scratch checkout (VERIF_REPO) with the shared Coq tree must not leave its fragment behind
+if os.path.realpath(core.REPO) != os.path.realpath("/repo") and os.path.realpath(core.COQ) == os.path.realpath(os.path.join(core.ROOT, "coq")):
+    import atexit
+
+    def _restore_arch_gen():
+        try:
+            translate_c19_r3.generate("/repo", os.path.join(core.COQ, "gen"))
+        except Exception:
+            pass
+
+    atexit.register(_restore_arch_gen)
+
+
+def extra_phase(tier, seed, exes, oracle):
+    word = ARCH_GEN_STATUS.split(" ", 1)[0]
+    return {
+        "evaluations": 0,
+        "hist": {"translator_c19_r3:ArchGen:" + word: 1},
+        "nontrivial": [],
+        "samples": [{"fragment": "coq/gen/ArchGen.v (tools/translate_c19_r3.py from integer/src/arch/mod.rs, <arch>/mod.rs, <arch>/word.rs, generic/add.rs)",
+                     "status": ARCH_GEN_STATUS,
+                     "tied_by": "C19_arch_word_admissible, C19_arch_force_bits, C19_arch_x86_64_default, C19_arch_add_with_carry, C19_arch_sub_with_borrow + the `config` case in every build"
+                     if word == "ok" else "the `config` case of the correspondence run only (source not parsed; committed copy marked STALE)"}],
+        "failures": [],
+    }
+
 
 ID = "C19"
 READY = True
@@ -14,42 +54,63 @@ CONFIGS = ["default", "release", "w32", "w32release", "nostd"]
 if os.environ.get("C19_CONFIGS"):       # sensitivity experiments only: a subset of the builds
     CONFIGS = os.environ["C19_CONFIGS"].split(",")
 
-LEVEL_TEXT = ("Machine-checked Coq theorems (42, coq/props/C19.v) about the binary serde formats carried by postcard: the word->byte "
-              "encoder of convert.rs, modelled for an arbitrary WORD_BYTES = k, writes the shortest little-endian byte string of the "
-              "VALUE (a function that does not mention k) and the byte->word decoder returns the little-endian value for every k, so "
-              "the encodings of UBig/IBig - and of the float/rational structs built from them - are identical for 64-, 32- and 16-bit "
-              "words; decode(encode x) = x for integers, varints, zigzag exponents, canonical floats and rationals; every byte string "
-              "(whole input, no size bound) is rejected or decoded to a canonical value (lowest terms with a positive denominator; "
-              "normalised significand within the precision; the two infinities) and the decoders never panic. Word-size independence "
-              "of the integer kernels is stated as corollaries of the C01/C09 theorems (multiply with the source thresholds, "
-              "add_in_place, trailing_zeros), which hold for any word size. The value-level half (same result in every build) is tied "
-              "by running one case file through five builds of the harness (64/32-bit words x debug/release, no_std dashu-base), "
-              "judging every answer against word-size-free specifications and diffing the builds against each other; log2_bounds "
-              "answers are judged as bounds in each build.")
-LEVEL_NOTE = ("Proved for all inputs: the wire-format theorems, the word-size corollaries, the properties of the word-size-free "
-              "specifications (Euclid/truncated division, modular power, root/log certificates unique). Only compared by the run, not "
-              "proved here: that every other kernel of the 32-bit build computes the same values; exp/ln/powi, RBig->f64 and FBig->f64 "
-              "answers are only diffed between the builds (verdict 'undecided' from the oracle, violation on any difference); the text "
-              "(serde_json) forms are checked by round trip and canonical-value tests, their grammar belongs to C07/C08. One open "
-              "finding (F06, debug assertion of into_f64_internal, shared with C06) is modelled as-is and excluded from the diff by an "
-              "exact class flag read through the public API. force_bits=\"16\" does not compile on this host and is not exercised.")
-TECHNIQUE = "Coq proof of the wire formats for arbitrary word size + five-configuration correspondence run against extracted specifications"
+LEVEL_TEXT = ("Machine-checked Coq theorems (97, coq/props/C19.v). WIRE FORMATS (round 2): the word->byte encoder of convert.rs, modelled for "
+              "an arbitrary WORD_BYTES = k, writes the shortest little-endian byte string of the VALUE and the byte->word decoder returns "
+              "the little-endian value for every k, so the binary encodings of UBig/IBig and of the float/rational structs are identical "
+              "for 64-, 32- and 16-bit words; decode(encode x) = x; every byte string is rejected or decoded to a canonical value, the "
+              "decoders never panic. WORD SIZE (round 3): for every public operation family a corollary 'the result does not depend on "
+              "w', citing the word-level theorems of the other properties which hold for any word size: multiplication dispatch with "
+              "the source thresholds incl. the slice-by-slice Toom-3, squares, cubes, powers, + and - (C01); DivRem/Div/Rem/ConstDivisor "
+              "with every kernel transcribed (C02); & | ^ and_not, shifts, bit queries on magnitudes and IBig (C09); Display/in_radix, "
+              "the three parsers, LE/BE bytes and chunks (C07); the modular ring incl. pow (C13); sqrt_rem with the Karatsuba kernel "
+              "(C12); IBig->f32/f64 (C06). The runs the oracle evaluates (Serde/WordRuns.v: build the representation of the build's "
+              "word size, run the word-level as-is model, read the value) are each proved equal to their word-size-free specification "
+              "for EVERY w >= 8. ARCHITECTURE: the cfg_if! chain of integer/src/arch/mod.rs, the per-architecture mod.rs/word.rs and "
+              "generic/add.rs are regenerated into coq/gen/ArchGen.v on every run; for EVERY set of cfg values the selected Word is "
+              "16/32/64 bits (DoubleWord twice that), force_bits=N selects N bits, and the portable add_with_carry/sub_with_borrow are "
+              "the primitives of C01's model. STD / NO_STD: the only differing code is the log2 estimator; ilog (three loops), nth_root "
+              "(Newton), FBig comparison and FBig +/- are proved for ANY (sound) estimate, hence identical / same contract in both "
+              "builds; log2_bounds itself is judged as bounds per build. TEXT FORMS (serde_json): Display + from_str_with_radix_prefix "
+              "of UBig/IBig round trip and are word-size independent; RBig text n[/d] round trips and every accepted text decodes to "
+              "lowest terms; FBig/Repr text round trips for every finite normal-form value outside one exactly characterised class "
+              "(open finding) and for the infinities. The value-level half is tied by running one case file through five builds "
+              "(64/32-bit words x debug/release, no_std), judging every answer against word-size-free specifications, running the "
+              "word-level models at the word size each build reports, and diffing the builds.")
+LEVEL_NOTE = ("Proved for all inputs: everything listed above. Judged per case against a proved/certified specification in all five builds "
+              "(round 2: only diffed): RBig->f32/f64 (C06 ieee_rne = Flocq), FBig->f32/f64 (C06 ieee_round; two open classes shared with "
+              "C06), exp/ln/powi (C11's certified interval checkers; open class directed_faithful shared with C11). Only compared by the "
+              "run, not proved here: gcd/gcd_ext, nth_root and ilog of the 32-bit build are judged by certificates (unique by theorem) "
+              "but their word-level code is not modelled per word size; float mul/div/sqrt are judged by the rounding contract per build; "
+              "Relaxed text round trip, ftostr/ffromstr and JSON inputs that are not plain strings (escapes, numbers, null) are checked "
+              "by canonical-value tests only; x86/x86_64 add.rs use core::arch intrinsics (listed, not transcribed); NTT tables are dead "
+              "code. Open findings: fbig_json_inf_collision (new: FBig<_,36> 24171 serialises to \"inf\" and comes back as +infinity), "
+              "fbig_to_float_wide_significand / fbig_to_float_subnormal (C06), directed_faithful (C11). force_bits=\"16\" does not "
+              "compile on this host and is not exercised (its selection and word widths are covered by the regenerated table).")
+TECHNIQUE = ("Coq proofs for arbitrary word size (wire formats, word-level runs, corollaries of C01/C02/C06/C07/C09/C12/C13), a regenerated "
+             "architecture table, estimator-independence theorems, text-form round trips + five-configuration correspondence run with "
+             "word-level models evaluated at each build's word size")
 RULE = ("cases = operation x operands: integers from word-count classes {0,1,2,3,4,5,8,T-1,T,T+1 for the size thresholds, counted in "
-        "64-bit AND in 32-bit words} x bit patterns x signs for arithmetic/division/bit/radix/byte/gcd/root/log/modular operations; "
-        "log2_bounds of every numeric type; float add/sub/mul/div/sqrt (exp/ln/powi: cross-build only); rational arithmetic; serde "
-        "round trips (postcard + serde_json) of UBig/IBig/FBig/DBig-like bases/Repr/RBig/Relaxed incl. zero, infinities, sign/parity "
-        "classes of the byte length; decoders fed with valid encodings, their mutations (truncated, extended, non-minimal varints, "
-        "trailing zero bytes, zero denominator, zero significand with exponents 0,+-1,other, precision below the digit count, "
-        "10-byte varints) and random bytes / JSON tokens. Every case runs in all five builds; non-trivial = the oracle evaluated a "
-        "specification on a non-degenerate input; distinct = distinct case texts.")
-EXPLANATION = ("Theorems in coq/props/C19.v (Serde/WireProofs.v). The oracle (oracle/driver_c19.ml) judges each build's answers against "
-               "the extracted specifications; tools/check.py additionally diffs the builds pairwise through canon_answer (log2 bounds and "
-               "the build banner are canonicalised away, everything else must be identical text).")
+        "64-bit AND in 32-bit words} x bit patterns x signs for arithmetic/division/bit/radix/byte/gcd/root/log/modular operations; single "
+        "multiplication kernels (schoolbook/Karatsuba/Toom-3/dispatch through verif_hooks::mul_kernel) on slices sized at the kernel "
+        "minimum lengths and thresholds of both word sizes with accumulators around borrow/overflow; radix conversion at powers of the "
+        "radix around the digits-per-word and chunk boundaries of both word sizes; log2_bounds of every numeric type; float "
+        "add/sub/mul/div/sqrt/exp/ln/powi; integer, rational and float -> f32/f64; rational arithmetic; serde round trips (postcard + "
+        "serde_json) of UBig/IBig/FBig/Repr/RBig/Relaxed incl. zero, infinities, the base-36 'inf' number and its neighbours, "
+        "sign/parity classes of the byte length; decoders fed with valid encodings, their mutations (truncated, extended, non-minimal "
+        "varints, trailing zero bytes, zero denominator, zero significand with exponents 0,+-1,other, precision below the digit count, "
+        "10-byte varints) and random bytes / JSON tokens; the build's cfg values against the regenerated architecture chain. Every case "
+        "runs in all five builds; non-trivial = the oracle evaluated a specification on a non-degenerate input; distinct = distinct case texts.")
+EXPLANATION = ("Theorems in coq/props/C19.v (Serde/WireProofs, WordSizeKernels, WordSizeKernels2, WordRuns, EstimatorIndependence, JsonProofs, "
+               "ArchProofs). The oracle (oracle/driver_c19.ml) judges each build's answers against the extracted specifications; every `ok` "
+               "answer carries the word size of the build (wb=) and the oracle additionally runs the word-level as-is models at exactly that "
+               "word size (asis=same|diff, path=<kernel class at that word size>); tools/check.py diffs the builds pairwise through "
+               "canon_answer (wb=/len= tokens, log2 bounds and the build banner are canonicalised away, everything else must be identical text).")
 TRUSTED_BASE = [
     "Coq 8.16.1 kernel (coqc)",
-    "extraction: ExtrOcamlBasic + ExtrOcamlZBigInt + coq/extract/FastZ.v directives",
-    "OCaml 4.13.1 + zarith 1.12, oracle/common.ml, oracle/driver_c19.ml; Rust harness harness/src/bin/c19.rs; serde_json and postcard 1.1.3 as the media (postcard's varint/bytes/struct layout is transcribed in Serde/WireModel.v)",
-    "specifications imported read-only from other properties: Int/BitsSpec, Int/IoSpec, Int/GrlSpec (log2 bracket decision), Float/Contract (rounding contract)",
+    "extraction: ExtrOcamlBasic + ExtrOcamlZBigInt + ExtrOcamlNativeString + coq/extract/FastZ.v directives; Extract Constant ClassicalDedekindReals.sig_forall_dec (never called; CoqInterval enclosures of C11)",
+    "OCaml 4.13.1 + zarith 1.12, oracle/common.ml, oracle/driver_c19.ml (incl. the precision heuristics for C11's checkers copied from driver_c11.ml: a bad choice can only give 'undecided'); Rust harness harness/src/bin/c19.rs; serde_json and postcard 1.1.3 as the media (postcard's varint/bytes/struct layout is transcribed in Serde/WireModel.v)",
+    "specifications and as-is models imported read-only from other properties: Int/BitsSpec, Int/IoSpec+IoModel, Int/GrlSpec, Float/Contract, Int/RingMulW+RingOpsW (C01), Int/DivSrcInst (C02), Int/BitsKernels (C09), Int/ModRingModel (C13), Int/GrlKsqrt (C12), Conv/ConvSpec+ConvModel (C06), Float/TextIoModel (C08), Float/ElemEncl+ElemEntry (C11)",
+    "tools/translate_c19_r3.py: strict regex reader of integer/src/arch/{mod.rs,<dir>/mod.rs,<dir>/word.rs,generic/add.rs} -> coq/gen/ArchGen.v; the reading of cfg predicates as (key, value) alternatives, of cfg_if! as first match, of overflowing_add/sub and Word::from(bool) (Serde/ArchModel.v) is hand-written semantics; x86/x86_64 add.rs (core::arch intrinsics) are trusted",
     "cargo feature unification: the nostd configuration builds all four crates without default features (tools/core.py harness_dir)",
 ]
 ASSUMPTIONS = [
@@ -62,6 +123,10 @@ ASSUMPTIONS = [
 
 def canon_answer(ans):
     """what must be identical between two builds"""
+    if ans.startswith("ok ") and ("wb=" in ans or "len=" in ans):
+        # wb=<bits>: the word size of the answering build (the oracle runs the word-level models at it); len=<la>,<lb>: the
+        # slice lengths of kmul in words of that build - both legitimately differ, everything else must not
+        ans = " ".join(t for t in ans.split(" ") if not (t.startswith("wb=") or t.startswith("len=")))
     if ans.startswith("ok bounds"):
         return "ok bounds"          # judged as bounds in each build, legitimately different (std vs table estimator)
     if ans.startswith("ok config"):
@@ -243,6 +308,64 @@ def gen_de_float(rng, b, with_prec):
     return [rng.below(256) for _ in range(rng.range(0, 10))]
 
 
+def valid(text):
+    """preconditions of the hook-driven kernels, for the shrinker: kmul needs len(b) >= the kernel's minimum length in BOTH
+    word sizes (the 64-bit geometry binds) and an accumulator that fits len(a) + len(b) 32-bit words"""
+    t = text.split()
+    if t and t[0] == "kmul" and len(t) == 6:
+        try:
+            which, c, a, b = int(t[1], 16), int(t[3], 16), int(t[4], 16), int(t[5], 16)
+        except ValueError:
+            return False
+        if a <= 0 or b <= 0 or c < 0:
+            return False
+        lo = min(a.bit_length(), b.bit_length())
+        need = {0: 1, 1: 1, 2: 3, 3: 16}.get(which)
+        if need is None or -(-lo // 64) < need:
+            return False
+        return c.bit_length() <= 32 * (-(-a.bit_length() // 32) + -(-b.bit_length() // 32))
+    return True
+
+
+def gen_kmul(rng, tier):
+    """one multiplication kernel on the word slices of each build: lengths chosen in 32-bit AND in 64-bit words around the
+    thresholds (24/25, 192/193 words) and the minimum lengths of the kernels (Karatsuba 3, Toom-3 16 words of the 64-bit build)"""
+    which = rng.choice([0, 0, 1, 2, 2, 3, 3])
+    unit = rng.choice([32, 32, 64])
+    if which == 3:
+        lb = rng.choice([16, 17, 24, 25, 31, 32, 33, 64] if unit == 64 else [31, 32, 33, 34, 47, 48, 49, 63, 64, 65, 96, 97, 193])
+    elif which == 2:
+        lb = rng.choice([3, 4, 5, 8, 16, 24, 25, 26, 31] if unit == 64 else [5, 6, 7, 8, 9, 24, 25, 26, 33, 47, 48, 49, 51, 63, 64, 65])
+    elif which == 1:
+        lb = rng.choice([1, 2, 3, 4, 8, 24, 25, 30])
+    else:
+        lb = rng.choice([1, 2, 3, 23, 24, 25, 26, 48, 49, 50, 51, 52, 96, 191, 192, 193, 194] + ([384, 385, 386, 387, 388] if unit == 32 else []))
+    la = rng.choice([lb, lb, lb + 1, lb + 2, lb + 24, lb + 25, 2 * lb - 1, 2 * lb, 2 * lb + 1, 3 * lb + 1, lb + rng.below(lb + 1)])
+    la = max(la, lb)
+    if la * lb > 120000:
+        la = lb + 1
+    a, b = gen_mag(rng, la, word=unit), gen_mag(rng, lb, word=unit)
+    if rng.chance(1, 8) and la == lb:
+        b = a
+    # the accumulator must fit len(a) + len(b) words in BOTH builds: the 32-bit geometry is the shorter one
+    nb = 32 * (-(-a.bit_length() // 32) + -(-b.bit_length() // 32))
+    r = rng.below(6)
+    if r == 0:
+        c = 0
+    elif r == 1:
+        c = (1 << nb) - 1
+    elif r == 2:
+        c = rng.bits(nb)
+    elif r == 3:
+        c = max(0, a * b % (1 << nb) + rng.choice([-1, 0, 1]))
+    elif r == 4:
+        c = min(max(0, (1 << nb) - 1 - a * b + rng.choice([-1, 0, 1, 2])), (1 << nb) - 1)
+    else:
+        c = rng.bits(nb) | (((1 << (nb // 2)) - 1) << (nb // 4))
+        c &= (1 << nb) - 1
+    return "kmul %x %d %s %s %s" % (which, rng.below(2), hx(c), hx(a), hx(b))
+
+
 JSON_INT = ['"0"', '"12"', '"-12"', '"+7"', '"0x1f"', '"-0x1F"', '"0b101"', '"0o17"', '"1_000"', '"_"', '""', '"-"', '"12a"', '"0x"',
             '" 12"', '"12 "', '12', '-3', '1.5', 'null', 'true', '[]', '{}', '["1"]', '"\\u0031\\u0032"', '"1\\n"', ' "34" ', '"99', '99"',
             '"-0"', '"--1"', '"+-1"', '"0x-1"', '"340282366920938463463374607431768211456"', '"-18446744073709551616"']
@@ -254,10 +377,12 @@ JSON_FLT = ['"0"', '"1.5"', '"-1.5"', '"1e3"', '"1.5e-3"', '"inf"', '"-inf"', '"
 
 
 def gen_cases(rng, tier, n):
-    out = ["config"]
+    out = ["config", "mulparams"]
     while len(out) < n:
-        k = rng.below(100)
-        if k < 8:
+        k = rng.below(104)
+        if k >= 100:
+            out.append(gen_kmul(rng, tier))
+        elif k < 8:
             a = gint(rng, tier, big=rng.chance(1, 8))
             r = rng.below(5)
             if r == 0:
@@ -340,9 +465,17 @@ def gen_cases(rng, tier, n):
         elif k < 35:
             r = rng.choice([2, 3, 7, 8, 10, 10, 16, 16, 32, 36, rng.range(2, 36)])
             if rng.chance(1, 2):
-                out.append("tostr %x %s" % (r, hx(gint(rng, tier, big=rng.chance(1, 10)))))
+                v = gint(rng, tier, big=rng.chance(1, 10))
+                if rng.chance(1, 3):
+                    # digits per word differ (9 / 19 decimal digits per 32 / 64-bit word): powers of the radix around the
+                    # word and chunk boundaries of both word sizes
+                    v = (r ** rng.choice([8, 9, 10, 18, 19, 20, 27, 38, 57, 9 * 16, 9 * 16 + 1, 19 * 16, 19 * 16 + 1, 9 * 32 + 1, rng.range(1, 400)])
+                         + rng.choice([0, -1, 1])) * rng.choice([1, -1])
+                out.append("tostr %x %s" % (r, hx(v)))
             else:
                 v = gint(rng, tier)
+                if rng.chance(1, 3):
+                    v = (r ** rng.choice([8, 9, 10, 18, 19, 20, 38, 255, 256, 257, 9 * 256 + 1, rng.range(1, 600)]) + rng.choice([0, -1, 1])) * rng.choice([1, -1])
                 digs = "0123456789abcdefghijklmnopqrstuvwxyz"
                 m, t = abs(v), ""
                 while m:
@@ -458,6 +591,10 @@ def gen_cases(rng, tier, n):
                 if q == 0:
                     nn = rng.choice([3, 0, -3, 1, 7, rng.bits(30), -rng.bits(70)])
                     dd = rng.choice([1, 1, 2, 3, 7, rng.bits(20) + 1, rng.bits(66) + 1])
+                    if dd.bit_length() > 24 and abs(nn).bit_length() < dd.bit_length() - 12:
+                        # the Farey walk of next_up / next_down takes about (sum of the partial quotients of x) steps: a tiny x
+                        # against a huge limit is a walk of 2^40 and more steps (hours, not a defect of this property)
+                        nn = (rng.bits(dd.bit_length()) | 1) * rng.choice([1, -1])
                     out.append("qnext %s %s %s" % (hx(nn), hx(dd), hx(rng.choice([1, 1, 2, 3, 10, dd, dd + 1, max(1, dd - 1), rng.bits(12) + 1, 0]))))
                 elif q == 1:
                     nn = rng.choice([1, -1, 3, rng.bits(24), rng.bits(53), rng.bits(54), rng.bits(64), rng.bits(120), (1 << 54) - 1, (1 << 25) - 1, gint(rng, tier) >> 600])
@@ -492,6 +629,12 @@ def gen_cases(rng, tier, n):
                     ss //= b
                 nd = ndigits(ss, b)
                 p = rng.choice([0, nd, nd + 1, nd + 13]) if nd else rng.choice([0, 1, 5])
+            if rng.chance(1, 10):
+                # the digits i, n, f exist from base 24 on: "inf" = 18 B^2 + 23 B + 15 (open finding fbig_json_inf_collision)
+                bt, b = "24", 36
+                st = hx(rng.choice([24171, -24171, 24171, 24172, 24170, 18 * 36 + 23, 24171 * 36 + 1]))
+                et = hx(rng.choice([0, 0, 0, 1, -1]))
+                p = rng.choice([0, 4, 7])      # FBig::from_repr requires digits <= precision (at most 4 digits here)
             if rng.chance(2, 3):
                 out.append("ser_fbig %s %s %x %s %s" % (bt, rng.choice(MODES), p, st, et))
             else:
